@@ -14,7 +14,7 @@ def astrT : AStr → Term
 def dataT : Data → Term
   | .val n => tag "val" [nat n]
   | .bin b => tag "bin" [bytes b]
-  | .opaque b => tag "opaque" [bytes b]
+  | .raw b => tag "opaque" [bytes b]
 
 def attrT (a : Attribute) : Term := tag "attr" [nat a.code, nat a.flags, dataT a.data]
 
@@ -123,7 +123,7 @@ def astrOf? : Term → Option AStr
 def dataOf? : Term → Option Data
   | .list [.atom "val", n] => (asNat? n).map .val
   | .list [.atom "bin", b] => (asBytes? b).map .bin
-  | .list [.atom "opaque", b] => (asBytes? b).map .opaque
+  | .list [.atom "opaque", b] => (asBytes? b).map .raw
   | _ => none
 
 def attrOf? : Term → Option Attribute
